@@ -319,6 +319,16 @@ def step (s : St) (w : List String) : St × String :=
         else (s, line "refused" dm (fmtRet out.ret) alts)
       | _, _ => (s, "bad-op")
     | _, _ => (s, "bad-op")
+  | ["y", "setvec", ks, nm, val, ns] =>
+    -- a counted character vector: the value is its first n characters, whatever follows them in memory
+    match ks.toNat?, parseName nm, parseHex val, ns.toNat? with
+    | some ki, some name, some b, some n =>
+      match s.objs[ki]? with
+      | none => (s, "bad-op")
+      | some ob =>
+        if name.isEmpty ∨ b.contains 0 ∨ val.startsWith "zero:" ∨ n > b.length then (s, "bad-op") else
+        setNamed s ki ob name (.text (some (b.take n))) true
+    | _, _, _, _ => (s, "bad-op")
   | ["y", "fail", ns] =>
     match ns.toNat? with
     | some n => if n < 1 ∨ n > 4 then (s, "bad-op") else ({ s with fail := n }, "R ok | C - | I ret=0")
